@@ -1,1 +1,11 @@
--- property theorems of C13 (not built yet)
+import Proofs.RealInst
+import TaurexModel.Grid
+
+namespace Taurex.C13
+open Taurex.Grid
+
+/-- the clipped grid is an ordered sub-list of the native grid -/
+theorem clip_sub (native wngrid : List ℝ) : (clipNative native wngrid).Sublist native := by
+  unfold clipNative; exact List.filter_sublist
+
+end Taurex.C13
